@@ -637,7 +637,7 @@ def tconst(ctx):
         cmps = _eps_compares(fns[nm])
         if len(cmps) != 1:
             same, found, _b = _tsoft_same(nm)
-            ks = [m for m in (re.fullmatch(r'cmp (\w+) (?:\w+=)?(\d+)\*eps', t) for t in (found or [])) if m]
+            ks = [m for m in (re.fullmatch(r'cmp (\w+) (?:\w+=)?(\d+)\*eps', t) for t in sorted(set(found or []))) if m]
             if same and len(ks) == 1 and ks[0].group(1) == op:
                 K[field] = int(ks[0].group(2))
                 soft_diff.append(f"{nm}: threshold comparison moved into a helper (value and operator unchanged)")
@@ -1674,6 +1674,58 @@ def oracle(ctx, K):
             if Rt is not None:
                 check('exp3:at-zero-threshold:vs-first-order', Rt, np.eye(3) + skew_np(wv), 1.0, rp_, tol=1e-12)
             R2_ = call('exp2:at-zero-threshold', lambda: base.trexp2([wv[0] + wv[1]]), rp_)
+    def dtype_forms():
+        """the same group element given as an integer-typed (hand-written poses: signed permutation rotations, whole-number translations),
+        or float32 ndarray (the documented argument type is ndarray; nested lists are not accepted by trlog): exp(log(T)) = T and the logarithm equals the one of the float64 copy, in both result forms"""
+        import itertools
+        rots = []
+        for perm in itertools.permutations(range(3)):
+            for sg in itertools.product((1, -1), repeat=3):
+                Rm = np.zeros((3, 3), dtype=np.int64)
+                for r_, c_ in enumerate(perm):
+                    Rm[r_, c_] = sg[r_]
+                if round(float(np.linalg.det(Rm))) == 1:
+                    rots.append(Rm)
+        trs = [np.array(t_, dtype=np.int64) for t_ in ((0, 0, 0), (1, 2, 3), (-4, 0, 7), (100, -3, 2))]
+        for Rm in rots:
+            for t_ in trs:
+                Ti = np.eye(4, dtype=np.int64)
+                Ti[:3, :3] = Rm
+                Ti[:3, 3] = t_
+                Tf = Ti.astype(np.float64)
+                scale = max(1.0, float(np.linalg.norm(t_)))
+                for name, arg in (('int64', Ti), ('int32', Ti.astype(np.int32)), ('float32', Ti.astype(np.float32))):
+                    for tw_ in (False, True):
+                        rp = {'law': 'log of a non-float64 argument', 'argument_form': name, 'twist': tw_, 'T': Ti.tolist()}
+                        ctx.case(('dtype-form', name, tw_, Ti.tobytes()))
+                        Lf = call('dtype-form:log-float64', lambda: base.trlog(Tf.copy(), twist=tw_), rp)
+                        La = call(f'dtype-form:log-{"int" if name.startswith("int") else name}', lambda: base.trlog(arg, twist=tw_), rp)
+                        if Lf is None or La is None:
+                            continue
+                        key = f'dtype-form:log-differs-from-float64:{"int" if name.startswith("int") else name}:{"twist" if tw_ else "matrix"}'
+                        check(key, np.asarray(La, dtype=float), np.asarray(Lf, dtype=float), scale, rp, tol=1e-6)
+                        Tb = call('dtype-form:exp-of-log', lambda: base.trexp(La), rp)
+                        if Tb is not None:
+                            check(f'dtype-form:exp-log:{"int" if name.startswith("int") else name}:{"twist" if tw_ else "matrix"}', Tb, Tf, scale, rp, tol=1e-6)
+                # rotation block alone
+                for name, arg in (('int64', Rm), ('float32', Rm.astype(np.float32))):
+                    rp = {'law': 'log of a non-float64 rotation', 'argument_form': name, 'R': Rm.tolist()}
+                    La = call('dtype-form:log-so3', lambda: base.trlog(arg), rp)
+                    Lf = call('dtype-form:log-so3', lambda: base.trlog(Rm.astype(float)), rp)
+                    if La is not None and Lf is not None:
+                        check(f'dtype-form:so3-log-differs-from-float64:{"int" if name.startswith("int") else name}', np.asarray(La, dtype=float), Lf, 1.0, rp, tol=1e-6)
+        # class layer
+        for Rm in rots[:8]:
+            Ti = np.eye(4, dtype=np.int64)
+            Ti[:3, :3] = Rm
+            Ti[:3, 3] = (1, 2, 3)
+            rp = {'law': 'SE3(int array).log()', 'T': Ti.tolist()}
+            Lc = call('dtype-form:SE3.log', lambda: SE3(Ti).log(), rp)
+            Lf = call('dtype-form:SE3.log', lambda: SE3(Ti.astype(float)).log(), rp)
+            if Lc is not None and Lf is not None:
+                check('dtype-form:SE3.log-int-differs-from-float64', np.asarray(Lc, dtype=float), Lf, 4.0, rp, tol=1e-6)
+
+    dtype_forms()
     exp3(ctx.n(150, 5000))
     explog3(ctx.n(3000, 100000))
     logexp3(ctx.n(2000, 60000))
